@@ -154,6 +154,11 @@ def _ask(op, name, arg, dtype):
     # (argument 0 = the bare call: the cache slot without arguments, which is also the one derived operators are handed transplanted factors in)
     if name == "root_inv_decomposition":
         return op.root_inv_decomposition() if arg == 0 else op.root_inv_decomposition(method=METHOD_ARG[arg])
+    if name == "diagonalization" and arg == 3:
+        from linear_operator import settings
+
+        with settings.max_root_decomposition_size(2):
+            return op.diagonalization("lanczos")
     if name == "diagonalization":
         return op.diagonalization() if arg == 0 else op.diagonalization(method=METHOD_ARG[arg])
     if name == "root_inv_decomposition_vecs":
@@ -216,6 +221,8 @@ def _validate_cache(obj, A, dtype, toggles, skip_lanczos=False):
                 m = _check_answer("root_decomposition", 0, val, A, dtype, toggles)
             elif name == "root_inv_decomposition":
                 m = _check_answer("root_inv_decomposition", 0, val, A, dtype, toggles)
+            elif name == "diagonalization" and ("lanczos" in args or kw.get("method") == "lanczos"):
+                m = _check_krylov("diagonalization", val, A, dtype)
             elif name == "diagonalization":
                 m = _check_answer("diagonalization", 0, val, A, dtype, toggles)
             elif name == "svd":
@@ -265,7 +272,7 @@ def replay_history(beh, dtype=torch.float64):
                         ans = _ask(o, name, arg, dtype)
                         if name == "root_inv_decomposition_vecs":
                             lanczos_objs.add(cur)
-                        if name == "root_decomposition" and arg == 3:
+                        if name in ("root_decomposition", "diagonalization") and arg == 3:
                             m = _check_krylov(name, ans, A, dtype)
                         elif lanczos_valued:
                             m = _check_krylov(name, ans, A, dtype) if arg == 0 else None
